@@ -306,4 +306,30 @@ def rule_apply(ctx):
     ctx.obls.extend(sub.obls)
 
 
-RULES = [rule_rw1, rule_rw3, rule_rw4, rule_rw5, rule_comparisons, rule_strategy, rule_apply]
+def rule_equality_predicate(ctx):
+    """The rewrites of classic::unstable treat a comparison accepted by equality_comparison as `term = guards[0].term` and remove or
+    substitute the whole comparison: that is only sound for a comparison with exactly one guard whose relation is `=`."""
+    fx = ctx.facts
+    b = fx.fn("classic::unstable::equality_comparison")
+    name = b["params"][0]["name"] if b["params"] and b["params"][0].get("p") == "Bind" else None
+    v = sym.Eval(fx, inline_depth=0).function(b, [("param", "$c")])
+    conj = set()
+
+    def flat(t):
+        if isinstance(t, tuple) and t[:2] == ("bin", "And"):
+            flat(t[2])
+            flat(t[3])
+        else:
+            conj.add(t)
+    flat(v)
+    G = ("place", "$c.guards")
+    one = ("bin", "Eq", ("call", "Vec::len", (G,)), ("lit", 1)) in conj or ("bin", "Eq", ("lit", 1), ("call", "Vec::len", (G,))) in conj
+    rel = any(t[:2] == ("bin", "Eq") and set(t[2:]) == {("fieldof", ("index", G, ("lit", 0)), "relation"), ("ctor", "Relation::Equal", ())} for t in conj if isinstance(t, tuple))
+    ctx.add("RW-6", "equality-comparison", one and rel, ctx.site(b),
+            "equality_comparison(c) requires exactly one guard (%s) whose relation is = (%s); a chain `t = u < v` accepted here would lose `u < v`" % (one, rel), construct=v)
+    users = sorted({bb["def_path"].split("unstable::")[-1].split("::{")[0] for bb in fx.body_list if hq.calls(bb["body"], "unstable::equality_comparison") and "::tests" not in bb["def_path"]})
+    ctx.add("RW-6", "equality-comparison:users", users == ["restrict_quantifier_domain", "simplify_transitive_equality"] or set(users) <= {"restrict_quantifier_domain", "simplify_transitive_equality", "replacement_helper"}, ctx.site(b),
+            "rewrites relying on it: %s" % users)
+
+
+RULES = [rule_rw1, rule_rw3, rule_rw4, rule_rw5, rule_comparisons, rule_strategy, rule_apply, rule_equality_predicate]
